@@ -10,6 +10,7 @@
 import PonyVerif.Gen.Quote
 import PonyVerif.Gen.SqlBuild
 import PonyVerif.Gen.ParamKey
+import PonyVerif.Gen.GroupConcat
 import PonyVerif.Py.Lemmas
 import PonyVerif.Lemmas.SqlText
 namespace PonyVerif.Props.C06
@@ -608,5 +609,27 @@ theorem C06_params_eval (style : Style) (tbl : Nat → Nat × Option Nat × Opti
 
 example : paramEvalRaw (fun _ => some (.seq [.scalar (.int 7), .entity [.str ['a'], .int 3]])) 0 (some 1) (some 1) = some (.int 3) := by
   simp [paramEvalRaw]
+
+/-! ### group_concat separators -/
+
+/-- bridge: every site of sqltranslation.py that writes the separator into a GROUP_CONCAT node (six, regenerated on every
+    run) guards it with `sep is not None` -/
+theorem C06_bridge_group_concat_guards :
+    PonyVerif.Gen.groupConcatSepGuards.all id = true ∧ PonyVerif.Gen.groupConcatSepGuards.length = 6 := by decide
+
+/-- **The separator reaches the database as exactly the string supplied**: for every separator - the empty string and
+    every hostile string included - and every list of rows, the database joins with the program's separator (or with the
+    documented default `,` when the program supplies none); the separator text itself travels as a `quote_str` literal
+    (`C06_literal_roundtrip`). -/
+theorem C06_group_concat_sep (sep : Option Str) (xs : List Str) :
+    dbGroupConcat (groupConcatArg true sep) xs = joinWith (sep.getD [',']) xs := by
+  cases sep <;> simp [groupConcatArg, dbGroupConcat]
+
+/-- with a truthiness guard the empty separator would be lost: `''.join(['a','b'])` would come back as `a,b` -/
+theorem C06_group_concat_truthiness_guard_false :
+    ¬ (∀ (sep : Option Str) (xs : List Str), dbGroupConcat (groupConcatArg false sep) xs = joinWith (sep.getD [',']) xs) := by
+  intro h
+  have := h (some []) [['a'], ['b']]
+  revert this; decide
 
 end PonyVerif.Props.C06
